@@ -1112,4 +1112,7 @@ func TestCheck(t *testing.T) {
 			MaxStates: 200000,
 		})
 	}
+	// overlapping requests of several browsers on the one shared RP (E3 schedule exploration, conc_test.go)
+	c.Assume("part conc: requests are interleaved at the hooked operations (state function, URLParamOpt callbacks, ResponseWriter methods, the HTTP client's RoundTrip, the application callback); handler code between two hooks runs atomically; all orders of hooked operations up to the stated preemption bound are explored")
+	concPart(c)
 }
